@@ -25,7 +25,7 @@ import (
 // the universe. References point at blob / manifest indexes of the universe
 // (manifest references only at lower indexes, so the universe is a DAG).
 type ManSpec struct {
-	Kind      string `json:"kind"` // image | index | opaque | badjson | wrongshape
+	Kind      string `json:"kind"` // image | index | opaque | badjson | wrongshape | trailing
 	MediaType string `json:"mt"`   // media type it is pushed with ("" = the kind's default)
 	Config    int    `json:"config"`
 	Layers    []int  `json:"layers,omitempty"`
@@ -104,6 +104,8 @@ func (u *Universe) ManMediaType(i int) string {
 		if m.Salt%2 == 0 {
 			return MTImage
 		}
+		return MTIndex
+	case "trailing":
 		return MTIndex
 	}
 	return MTOpaque
@@ -225,6 +227,10 @@ func (u *Universe) ManBytes(i int) []byte {
 		data = []byte(fmt.Sprintf("\x00\xffnot json at all, salt %d", m.Salt))
 	case "badjson":
 		data = []byte(fmt.Sprintf(`{"schemaVersion":2,"salt":%d,`, m.Salt))
+	case "trailing":
+		// a complete, acceptable index document followed by something else: not a JSON document
+		doc := fmt.Sprintf(`{"schemaVersion":2,"mediaType":%q,"manifests":[],"annotations":{"salt":"%d"}}`, MTIndex, m.Salt)
+		data = []byte(doc + []string{" junk", "}", doc, "\n[]"}[m.Salt%4])
 	case "wrongshape":
 		// valid JSON whose fields have the wrong types for both spec structs
 		data = []byte(fmt.Sprintf(`{"schemaVersion":2,"salt":%d,"layers":"x","manifests":{"a":1},"config":[1]}`, m.Salt))
